@@ -51,10 +51,18 @@ def enc(v):
     return {"o": type(v).__name__}
 
 
+class Opaque:
+    """a value of a class the encoding does not know (e.g. the library's `unprovided` sentinel)"""
+    def __init__(self, name):
+        self.name = name
+
+
 def dec(j):
     if j is None:
         return None
     (k, x), = j.items()
+    if k == "o":
+        return Opaque(x)
     if k == "b":
         return bool(x)
     if k == "i":
@@ -188,7 +196,7 @@ def build_class(case):
         return _CLS_CACHE[key]
     o = case["opts"]
     okw = {}
-    for k in ("immutable", "ignore_required", "ignore_delete_nonexistent"):
+    for k in ("immutable", "ignore_required", "ignore_delete_nonexistent", "collect_errors"):
         if o.get(k):
             okw[k] = True
     add = o.get("addition", "ignore")
@@ -588,6 +596,8 @@ def gen_class(rng, base=None):
         opts["ignore_required"] = True
     if rng.random() < 0.2:
         opts["ignore_delete_nonexistent"] = True
+    if rng.random() < 0.15:
+        opts["collect_errors"] = True      # must make no difference to the mutators (they force the error)
     init = []
     for f in fields:
         name_pool = [f["att"], f.get("alias") or f["att"]] + list(f.get("alias_from") or [])
@@ -750,7 +760,7 @@ class C07(Check):
     impl = "harness.c07:impl"
     rule = ("random data classes (2-5 fields drawn from required/default/deferred-default/optional x aliased x alias_from x "
             "immutable/Final x no_output over 4 field types, 0-2 getter properties with declared dependencies, options immutable/"
-            "ignore_required/ignore_delete_nonexistent/addition in {ignore,allow,forbid,int}; Schema 82% / DataClass 18%) "
+            "ignore_required/ignore_delete_nonexistent/collect_errors/addition in {ignore,allow,forbid,int}; Schema 82% / DataClass 18%) "
             "x operation sequences (<=12 quick, <=40 thorough) over setattr/setitem/delattr/delitem/update/pop/popitem/"
             "setdefault/clear/|=/copy on up to 3 live instances, arguments valid/convertible/invalid 50/25/25 for the "
             "addressed field's type; plus directed copy-then-mutate-both sequences; thorough adds every sequence of length 4 "
@@ -758,7 +768,7 @@ class C07(Check):
             "state-changing operations and at least one raising or removing operation; distinct by (class, sequence)")
     assumptions = ["the converter of each field type is taken from utype's type-level API (type_transform) and handed to the model as a table: "
                    "C07 is about what the mutators do with it, not about the converters (C01/C02)",
-                   "fragment: on_error/invalid_values = throw, collect_errors off, no mode, getter-only properties whose dependencies are "
+                   "fragment: on_error/invalid_values = throw, no mode, getter-only properties whose dependencies are "
                    "declared non-property fields and whose getter is total; property setters/deleters, callable no_output, case-insensitive "
                    "fields are outside the model (not generated)",
                    "the initial instance is produced by the real constructor; the theorems assume the invariant for it and the sweep checks it"]
